@@ -5,6 +5,10 @@ import json
 from .. import bashrt, core, extract, gram
 
 LEVEL = "proof"
+CLAIM = "Theorems bash/fish/zsh/pwsh_roundtrip: for every string, the shell's double-quote reader (Quote.Dialect) applied to the emitted constant (the replace-chain regenerated from the Rust source on every run) returns the original text and meets no unescaped special character. The chain well-formedness is decided by the kernel (decide) on the current chain and lifted to all strings by chain_roundtrip. Run-time side: constants of real scripts for 4 shells are tokenised, decoded by the same Lean reader and compared with the grammar's strings; bash additionally executes the script (bash -n, candidates, exact matching incl. glob-looking words)."
+NOTE = 'Trusted: translate.py chain extraction; the fish/zsh/pwsh dialect models are transcriptions of documentation (no such shell installed); bash dialect validated by execution; extract.py tokeniser. The unquoted-pattern half (literal matched only by the identical word) is observed in real bash, not yet a theorem over the BashRt model.'
+TECHNIQUE = 'Lean 4 theorem over translator-regenerated escape chains + decode of real script constants + bash execution'
+DESIGN_REF = '§3 C07'
 
 DANGEROUS = ['\\', '"', '$', '`', '!', '*', '?', '[', ']', '~', '#', '&', '(', ')', '{', '}', "'", ';', '|', '<', '>', '.', '=', '%', '^', ':', ',', '@', '+', '-', '/', '_']
 DESCR_EXTRA = [' ', '\t', '\n', 'é', '“', '”', '„', '’', '\r', '\x1b']
